@@ -12,7 +12,7 @@ from typing import Any, Callable
 from .cfg import CFG
 from .db import AnalysisError, FuncInfo, ProgramDB
 from .report import VERIF, Report
-from .variants import Variant, VariantNotApplicable, apply_patch_in_memory, apply_variant, rename_twins, structural_twins
+from .variants import Variant, VariantNotApplicable, apply_patch_in_memory, apply_variant, param_twins, rename_twins, structural_twins
 
 
 class Ctx:
@@ -112,6 +112,11 @@ def selftest(mod: Any, repo: str, seed: int) -> dict:
         for desc, ov in structural_twins(repo, rel):
             n_struct += 1
             jobs.append(("stwin", desc, (mod.__name__, repo, ov, "quick")))
+        # seventh family: every parameter of every private function / method / closure renamed (with the keyword
+        # arguments at its call sites) — parameter names of private helpers are not API
+        for desc, ov in param_twins(repo, rel):
+            n_struct += 1
+            jobs.append(("stwin", desc, (mod.__name__, repo, ov, "quick")))
 
     results: list[tuple[list[str], str | None]] = []
     if jobs:
@@ -166,6 +171,6 @@ def selftest(mod: Any, repo: str, seed: int) -> dict:
         "seeded_detected": seeded_detected,
         "seeded": seeded_details,
         "rename_twins": {"files": twin_files, "generated": n_twins, "silent": n_twins - len(twin_alarms), "false_alarms": twin_alarms},
-        "structural_twins": {"families": ["invert-if", "temp-return", "split-and", "flip-compare", "early-continue/guard-to-nest", "comp-to-loop"], "generated": n_struct, "silent": n_struct - len(struct_alarms), "false_alarms": struct_alarms},
+        "structural_twins": {"families": ["invert-if", "temp-return", "split-and", "flip-compare", "early-continue/guard-to-nest", "comp-to-loop", "private-param-rename"], "generated": n_struct, "silent": n_struct - len(struct_alarms), "false_alarms": struct_alarms},
         "note": "self-test outcomes never change the exit code of the property check",
     }
